@@ -179,3 +179,17 @@ Definition wedged (fixed : bool) (s : lstate) : bool :=
    deadline; Do returned within its bound; no goroutine of the run was left. *)
 Definition c05_ok (late_starts unfinished after_deadline slow leaked : Z) : bool :=
   (late_starts =? 0) && (unfinished =? 0) && (after_deadline =? 0) && (slow =? 0) && (leaked =? 0).
+
+(* ---------------------------------------------------------------- the triggering window
+
+   Run.run: duration := max-duration, or the trigger's own total duration when that is positive
+   and shorter; the trigger's context ends guard (10 ms) before that. What the property allows:
+   triggering stops no later than the earlier of (max-duration less the guard) and the trigger's
+   own duration. remaining = time left on the trigger's context when the trigger is entered. *)
+Definition guard_ns : Z := 10000000.
+Definition code_window (max_d trig_d : Z) : Z :=
+  (if (0 <? trig_d) && (trig_d <? max_d) then trig_d else max_d) - guard_ns.
+Definition allowed_window (max_d trig_d : Z) : Z :=
+  if 0 <? trig_d then Z.min (max_d - guard_ns) trig_d else max_d - guard_ns.
+Definition window_ok (max_d trig_d remaining slack : Z) : bool :=
+  remaining <=? allowed_window max_d trig_d + slack.
